@@ -47,24 +47,28 @@ def run(ctx: Ctx):
     cons7 = "_receive_message:handler-5012#ready-only"
     ctx.inst(cons7, rule="C09-R7", sample=[R_.g.loc(n) for n in hsends])
     # (a handler that does not send through send_message itself is the business of C09-R6)
+    # paths through the handler that are consistent with "an application request on a connection
+    # that is not ready": the edges taken when the state IS a ready one, or the command IS a base
+    # protocol command, are removed - what can still reach the send is sent in that situation
+    def _ready(a):
+        if a.subject == f"{R_.conn}.state" and a.op == "in" and isinstance(a.value, (set, frozenset, tuple, list)) \
+                and set(a.value) <= set(READY_):
+            return True
+        return None
+
+    def _base(a):
+        if a.subject == R_.cmd and a.op == "in" and isinstance(a.value, (set, frozenset, tuple, list)) \
+                and set(a.value) <= BASE_:
+            return True
+        if a.subject == R_.cmd and a.op == "==" and a.value in BASE_:
+            return True
+        return None
+    gone = R_.g.guard_edges(lambda t: R_.at.label_when(t, _ready)) + \
+        R_.g.guard_edges(lambda t: R_.at.label_when(t, _base))
+    still = R_.g.reach(list(R_.handlers), blocked_edges=gone)
     for n in hsends:
-        fx = _mf(R_.g, R_.at, n)
-        ready = any(f_[0] == f"{R_.conn}.state" and f_[1] == "in" and f_[3] is True
-                    and set(f_[2] if isinstance(f_[2], (set, frozenset, tuple, list)) else ()) <= set(READY_)
-                    for f_ in fx)
-        base = any(f_[0] == R_.cmd and f_[1] == "in" and f_[3] is True
-                   and set(f_[2] if isinstance(f_[2], (set, frozenset, tuple, list)) else ()) <= BASE_ for f_ in fx)
-        # the guard is written as an early return under `cmd not in BASE and state not in READY`:
-        # on the path to the send at least one of the two is known to be false, which must-facts
-        # cannot express as one atom - so look for the guard itself
-        guard = False
-        for t in ast.walk(R_.f.node):
-            if isinstance(t, ast.If) and t.body and isinstance(t.body[-1], ast.Return):
-                tt = ast.unparse(t.test)
-                if f"{R_.conn}.state not in PEER_READY_STATES" in tt and "command_code not in" in tt:
-                    gn = [x for x in R_.g.nodes if x.kind == "stmt" and x.ast is t.body[-1]]
-                    if gn and not R_.g.can_reach(n, gn[0]):
-                        guard = any(h in R_.g.nodes and gn[0] in R_.g.reach([h]) for h in R_.handlers)
+        ready = base = False
+        guard = n not in still
         if not (ready or base or guard):
             ctx.fail(cons7, R_.g.loc(n), "the error handler answers 5012 whatever the state of the connection: "
                      "when an application's own answer was refused with NotRoutable (the peer has sent a "
